@@ -26,9 +26,9 @@ def conc_cfg(work, name, mod_scen, invs, stats_micro=False, emit=False, dev=None
     d = dict(DEV_DEFAULT)
     d.update(dev or {})
     lines = ["SPECIFICATION Spec", "CONSTANTS", "  Ids <- GenIds", "  Price = %d" % scen.PRICE,
-             "  StatsMicro = %s" % ("TRUE" if stats_micro else "FALSE")]
+             "  StatsMicro = %s" % ("TRUE" if stats_micro else "FALSE"), "  StatsCount = TRUE"]
     lines += ["  %s = %s" % kv for kv in d.items()]
-    lines += ["  Scenarios <- GenScenarios", "  EmitReplays = %s" % ("TRUE" if emit else "FALSE"), "VIEW View"]
+    lines += ["  Scenarios <- GenScenarios", "  EmitReplays = %s" % ("TRUE" if emit else "FALSE"), "  TrackHist = TRUE", "VIEW View"]
     lines += ["INVARIANT " + i for i in invs]
     if emit:
         lines.append("INVARIANT Inv_Emit")
@@ -277,6 +277,16 @@ def check_seq(prop, tier):
 
         if prop == "C02":
             mres_part(res, work, tier)
+        if prop == "C06":
+            # termination as a temporal property of the micro-step model under weak fairness
+            rl = tlc("MCLive", os.path.join(SPEC, "mc", "MCLive.cfg"), work, workers=4, timeout=1500)
+            if rl["error"] or "Temporal property" in rl["out"] and "violated" in rl["out"]:
+                raise ToolError("liveness check (MCLive: every call returns under weak fairness) failed on the repaired instance\n" + tail(rl["out"], 20))
+            cfgl = write_cfg(work, "livew", "MCLive", subst={"DevZeroDisplaySpin": "TRUE"})
+            rw = tlc("MCLive", cfgl, work, workers=4, timeout=1500)
+            if "Temporal property Terminates was violated" not in rw["out"]:
+                raise ToolError("regression witness: the instance with the zero-display spin (D4) must have a non-terminating lasso")
+            res.add(states=rl["distinct"], transitions=rl["generated"], liveness_states=rl["distinct"], liveness_witness_D4="lasso found")
         # 3. specification -> implementation: the model's histories replayed in the real code
         cap = 800 if tier == "quick" else 20000
         if len(replays) > cap:
